@@ -271,6 +271,36 @@ theorem C10_readIntoAnswer_receiver_irrelevant (rcv₁ rcv₂ : String) (q : Nat
     (v : List (ZM q)) (tab : Bool) :
     readIntoAnswer rcv₁ q kers src v tab = readIntoAnswer rcv₂ q kers src v tab := rfl
 
+/-- **several domains and a trailer on ONE stream** (op `stream`): successive `ReadFrom` calls decode exactly the domains that were
+    written, call `i` consumes exactly the bytes `WriteTo` emitted for domain `i` (so the reader's position after every call is the sum
+    of the written counts), and the trailer is what is left - whatever reader hands out the bytes (the model has no reader parameter) -/
+theorem C10_stream_roundtrip (nb q : Nat) (hq : q ≤ 256^nb) (ds : List DomainRec) (trailer : List UInt8)
+    (hv : ∀ d ∈ ds, d.card < 2^64 ∧ d.cardInv < q ∧ d.gen < q ∧ d.genInv < q ∧ d.g < q ∧ d.gInv < q) :
+    decodeStream nb q ds.length (encodeStream nb ds ++ trailer)
+      = .ok (ds.map (fun d => (d, (encodeDomain nb d).length)), trailer) := by
+  induction ds with
+  | nil => simp [decodeStream, encodeStream]
+  | cons d ds ih =>
+    obtain ⟨hc, h1, h2, h3, h4, h5⟩ := hv d (by simp)
+    have ih' := ih (fun d' hd' => hv d' (by simp [hd']))
+    have e : encodeStream nb (d :: ds) ++ trailer = encodeDomain nb d ++ (encodeStream nb ds ++ trailer) := by
+      simp [encodeStream, List.append_assoc]
+    rw [List.length_cons, decodeStream, e, decode_encode nb q d _ hq hc h1 h2 h3 h4 h5]
+    simp only [ih']
+    simp [List.length_append]
+
+/-- **`Generator(m)` is refused exactly above the two-adicity** (op `gen`): the model's generator exists iff `⌈log2 m⌉ ≤ s`, and is then
+    `ρ^(2^(s-⌈log2 m⌉))` (whose exact order is `C10_generator_order`) -/
+theorem C10_generatorOf_defined (q rho s m : Nat) :
+    (generatorOf q rho s m = none ↔ s < (nextPow2 m).log2) ∧
+    ((nextPow2 m).log2 ≤ s → generatorOf q rho s m = some (powMod rho (2^(s - (nextPow2 m).log2)) q)) := by
+  unfold generatorOf
+  constructor
+  · by_cases h : (nextPow2 m).log2 > s <;> simp [h]
+  · intro h
+    have : ¬ (nextPow2 m).log2 > s := by omega
+    simp [this]
+
 example : readFrom 1 251 [[0, 0, 0], [0, 0, 0, 0, 4, 188], [64, 51], [], [5, 101, 1, 9]]
     = .ok (⟨4, 188, 64, 51, 5, 101, true⟩, [9]) := by decide
 example : encodeDomain 1 ⟨4, 188, 64, 51, 5, 101, true⟩ = [0, 0, 0, 0, 0, 0, 0, 4, 188, 64, 51, 5, 101, 1] := by decide
